@@ -172,8 +172,8 @@ PROPS = {
  'C08': dict(
     group='shim', only=['hist'], ops=['hist'],
     klass=lambda c: 'hist:noup' + c['args'][0] + ':ops' + str(min(25, 5 * (c['args'][3].count(';') // 5))) + ('+faults' if '!' in c['args'][3] else ''),
-    modules=['Ysshra.Props.C08', 'Ysshra.Bridge.SnapShim'],
-    theorem_files=['Props/C08.lean', 'Bridge/SnapShim.lean'],
+    modules=['Ysshra.Props.C08', 'Ysshra.Bridge.SnapShim', 'Ysshra.Bridge.ShimOps'],
+    theorem_files=['Props/C08.lean', 'Bridge/SnapShim.lean', 'Bridge/ShimOps.lean'],
     anchors=['agent/shimagent/', 'sshutils/cert/validation.go'],
     n=dict(quick=500, thorough=20000),
     timeout=dict(quick=900, thorough=3400),
@@ -202,8 +202,8 @@ PROPS = {
  'C10': dict(
     group='shim', only=['hist', 'weird'], ops=['hist'],
     klass=lambda c: 'hist:noup' + c['args'][0] + ':ops' + str(min(25, 5 * (c['args'][3].count(';') // 5))) + ('+faults' if '!' in c['args'][3] else ''),
-    modules=['Ysshra.Props.C10', 'Ysshra.Bridge.SnapShim', 'Ysshra.Bridge.CertType', 'Ysshra.Bridge.KeyId', 'Ysshra.Bridge.SnapKeyId'],
-    theorem_files=['Props/C10.lean', 'Bridge/SnapShim.lean', 'Bridge/CertType.lean', 'Bridge/KeyId.lean', 'Bridge/SnapKeyId.lean'],
+    modules=['Ysshra.Props.C10', 'Ysshra.Bridge.SnapShim', 'Ysshra.Bridge.CertType', 'Ysshra.Bridge.KeyId', 'Ysshra.Bridge.SnapKeyId', 'Ysshra.Bridge.ShimOps'],
+    theorem_files=['Props/C10.lean', 'Bridge/SnapShim.lean', 'Bridge/CertType.lean', 'Bridge/KeyId.lean', 'Bridge/SnapKeyId.lean', 'Bridge/ShimOps.lean'],
     anchors=['agent/shimagent/', 'sshutils/cert/validation.go'],
     n=dict(quick=500, thorough=20000),
     timeout=dict(quick=900, thorough=3400),
